@@ -383,6 +383,12 @@ def dispatch(ctx):
           and isinstance(sb[0].value.func, ast.Attribute) and sb[0].value.func.attr == "from_alias"
           and astq.is_name(sb[0].value.func.value, fc)
           and len(sb[0].value.args) == 1 and astq.is_name(sb[0].value.args[0], arg) and not sb[0].value.keywords)
+    io_calls = [c_ for st_ in sb for c_ in ast.walk(st_) if isinstance(c_, ast.Call) and (
+        astq.is_name(c_.func, "open") or (prog.qualify(f.module, c_.func, f) or "").startswith(("os.path.", "io.open", "json.load", "pathlib.")))]
+    if io_calls:
+        ctx.bad(R, f, io_calls[0], "a string argument is looked up in the file system (%s) before - or instead of - being used as an alias: a file that happens to "
+                "be called like an alias (hann, fbank, mel ...) changes what the name builds" % astq.text(io_calls[0])[:50],
+                "a string is used as the alias with default arguments")
     ctx.check(ok, R, f, sb[0], "a string is used as the alias with default arguments: %s.from_alias(%s)" % (fc, arg),
               "the str branch is not exactly `return %s.from_alias(%s)`" % (fc, arg), structural=True)
     # (iii) mutations only on fresh copies
